@@ -35,6 +35,9 @@ type c28Case struct {
 	Damage  int    // payload: 0 none, 1 flip a checksum bit, 2 drop last hex digit (odd length), 3 replace a digit by a non-hex char, 4 drop the checksum, 5 upper-case 0X prefix
 	Pos     int    // position used by the damage
 	Raw     string // raw: the string itself
+	Edit    string // edit: delete | insert | duplicate exactly one hex digit of the valid encoding of Payload (33 bytes)
+	Class   string // edit: first (leading payload nibble) | typeid (second nibble) | middle | checksum | last
+	Digit   int    // edit/insert: the digit inserted (0..15)
 }
 
 func c28Checksum(b []byte) []byte {
@@ -120,11 +123,53 @@ func c28CheckString(s string) (accepted bool, err error) {
 	return true, nil
 }
 
+// c28EditOne deletes / inserts / duplicates exactly one hex digit of the un-prefixed valid encoding enc
+// (74 digits) at a position of the given class. The extra label names the one edit that a lenient parser
+// (pad odd-length input with a leading 0) turns back into the original string.
+func c28EditOne(enc, edit, class string, pos, digit int) (string, string) {
+	if pos < 0 {
+		pos = -pos
+	}
+	n := len(enc)
+	var i int
+	switch class {
+	case "first":
+		i = 0
+	case "typeid":
+		i = 1
+	case "checksum":
+		i = 2*c28AddrLen + pos%(2*c28SumLen-1)
+	case "last":
+		i = n - 1
+	default:
+		i = 2 + pos%(2*c28AddrLen-2)
+	}
+	lbl := ""
+	switch edit {
+	case "insert":
+		d := "0123456789abcdef"[((digit%16)+16)%16]
+		if class == "last" {
+			i = n // append
+		}
+		if i == 0 && d == '0' {
+			lbl = "insert-leading-zero-nibble"
+		}
+		return enc[:i] + string(d) + enc[i:], lbl
+	case "duplicate":
+		return enc[:i+1] + enc[i:], lbl
+	default: // delete
+		if enc[0] == '0' && (i == 0 || (i == 1 && enc[1] == '0')) {
+			lbl = "delete-leading-zero-nibble"
+		}
+		return enc[:i] + enc[i+1:], lbl
+	}
+}
+
 func c28Run(c c28Case, st *vstat.Stats) error {
 	var s string
 	labels := []string{"mode-" + c.Mode}
 	nt := false
-	mustAccept := false
+	mustAccept, mustReject := false, false
 	switch c.Mode {
 	case "addr":
 		if len(c.Payload) != c28AddrLen {
@@ -229,6 +274,28 @@ func c28Run(c c28Case, st *vstat.Stats) error {
 		}
 	case "raw":
 		s = c.Raw
+	case "edit":
+		if len(c.Payload) != c28AddrLen {
+			return nil
+		}
+		var lbl string
+		s, lbl = c28EditOne(c28Encode(c.Payload, false, c.Upper), c.Edit, c.Class, c.Pos, c.Digit)
+		if c.Prefix {
+			s = "0x" + s
+		} else {
+			labels = append(labels, "no-prefix")
+		}
+		labels = append(labels, "edit-"+c.Edit, "edit-at-"+c.Class)
+		if c.Payload[0] < 0x10 {
+			labels = append(labels, "type-id<0x10")
+		}
+		if lbl != "" {
+			labels = append(labels, lbl)
+		}
+		nt = true
+		// an edited string may by chance still be a valid encoding only if it has 74 digits again (never for one
+		// deleted/inserted/duplicated digit): the independent decoder rejects every odd-length string
+		mustReject = true
 	default:
 		return nil
 	}
@@ -243,6 +310,9 @@ func c28Run(c c28Case, st *vstat.Stats) error {
 	if err != nil {
 		return err
 	}
+	if mustReject && accepted {
+		return fmt.Errorf("%q (valid encoding of %x with one hex digit %sd at %s) is accepted", s, c.Payload, c.Edit, c.Class)
+	}
 	if mustAccept && !accepted {
 		return fmt.Errorf("the canonical encoding %q of address %x is rejected", s, c.Payload)
 	}
@@ -251,7 +321,7 @@ func c28Run(c c28Case, st *vstat.Stats) error {
 
 func c28Gen(rt *rapid.T) c28Case {
 	var c c28Case
-	c.Mode = rapid.SampledFrom([]string{"addr", "addr", "payload", "payload", "payload", "payload", "raw"}).Draw(rt, "mode")
+	c.Mode = rapid.SampledFrom([]string{"addr", "addr", "payload", "payload", "payload", "payload", "raw", "edit", "edit", "edit"}).Draw(rt, "mode")
 	byteGen := rapid.OneOf(rapid.Byte(), rapid.SampledFrom([]byte{0, 0xff}))
 	switch c.Mode {
 	case "addr":
@@ -276,6 +346,18 @@ func c28Gen(rt *rapid.T) c28Case {
 		c.Upper = rapid.IntRange(0, 3).Draw(rt, "upper") == 0
 		c.Damage = rapid.SampledFrom([]int{0, 0, 0, 0, 1, 2, 3, 4, 5}).Draw(rt, "damage")
 		c.Pos = rapid.IntRange(0, 1<<16).Draw(rt, "pos")
+	case "edit":
+		c.Payload = rapid.SliceOfN(byteGen, c28AddrLen, c28AddrLen).Draw(rt, "addr")
+		// type id 0x00..0x0f (leading hex digit 0) in most cases, anything otherwise
+		if rapid.IntRange(0, 9).Draw(rt, "lowTypeID") < 7 {
+			c.Payload[0] = rapid.ByteRange(0, 0x0f).Draw(rt, "typeID")
+		}
+		c.Prefix = rapid.Bool().Draw(rt, "prefix")
+		c.Upper = rapid.IntRange(0, 3).Draw(rt, "upper") == 0
+		c.Edit = rapid.SampledFrom([]string{"delete", "delete", "insert", "duplicate"}).Draw(rt, "edit")
+		c.Class = rapid.SampledFrom([]string{"first", "first", "first", "typeid", "middle", "middle", "checksum", "checksum", "last", "last"}).Draw(rt, "class")
+		c.Pos = rapid.IntRange(0, 1<<16).Draw(rt, "pos")
+		c.Digit = rapid.OneOf(rapid.Just(0), rapid.IntRange(0, 15)).Draw(rt, "digit")
 	default:
 		c.Raw = rapid.OneOf(
 			rapid.StringOfN(rapid.RuneFrom([]rune("0123456789abcdefABCDEFxX g")), 0, 90, -1),
@@ -286,7 +368,7 @@ func c28Gen(rt *rapid.T) c28Case {
 }
 
 func TestC28(t *testing.T) {
-	st := vstat.New(t, "C28", "addresses (33 random/boundary bytes: String/MarshalText/JSON round trips, format compared with an independent encoder, then re-parsed with/without 0x and in either case) and strings (payloads of 0..73 bytes with a recomputed valid checksum, optionally damaged: checksum bit flip, odd length, non-hex character, checksum dropped, 0X prefix; plus raw hex-ish and arbitrary strings); whenever parsing succeeds an independent decoder must find exactly address||sha256(address)[28:]; non-trivial = a wrong-length payload carrying a valid checksum; distinct by the string")
+	st := vstat.New(t, "C28", "addresses (33 random/boundary bytes: String/MarshalText/JSON round trips, format compared with an independent encoder, then re-parsed with/without 0x and in either case) and strings (payloads of 0..73 bytes with a recomputed valid checksum, optionally damaged: checksum bit flip, odd length, non-hex character, checksum dropped, 0X prefix; plus raw hex-ish and arbitrary strings; plus valid encodings with exactly one hex digit deleted / inserted / duplicated at the leading nibble, inside the type id, in the middle, inside the checksum or at the end, type id below and above 0x10, which must all be rejected); whenever parsing succeeds an independent decoder must find exactly address||sha256(address)[28:]; non-trivial = a wrong-length payload carrying a valid checksum, or a one-digit edit of a valid encoding; distinct by the string")
 	rapid.Check(t, func(rt *rapid.T) {
 		c := c28Gen(rt)
 		vstat.Run(rt, st, c, func() error { return c28Run(c, st) })
@@ -307,7 +389,7 @@ func TestC28Replay(t *testing.T) {
 // on the checksummed encoding of a fuzzer-chosen payload (so that the fuzzer can
 // change the payload length without having to guess a SHA-256 suffix).
 func FuzzC28(f *testing.F) {
-	f.Fuzz(func(t *testing.T, s string, payload []byte, flags uint8) {
+	f.Fuzz(func(t *testing.T, s string, payload []byte, flags uint8, pos uint16) {
 		if _, err := c28CheckString(s); err != nil {
 			t.Fatalf("C28 violated: %v", err)
 		}
@@ -322,11 +404,30 @@ func FuzzC28(f *testing.F) {
 		if len(payload) == c28AddrLen && flags&3 == 1 && !acc {
 			t.Fatalf("C28 violated: canonical encoding %q rejected", enc)
 		}
+		// one hex digit deleted / inserted / duplicated anywhere in the encoding (flags bits 2..3: 0 = no edit)
+		if edit := (flags >> 2) & 3; edit != 0 && len(payload) > 0 {
+			body := c28Encode(payload, false, flags&2 != 0)
+			i := int(pos) % len(body)
+			switch edit {
+			case 1:
+				body = body[:i] + body[i+1:]
+			case 2:
+				body = body[:i] + string("0123456789abcdef"[(flags>>4)&15]) + body[i:]
+			default:
+				body = body[:i+1] + body[i:]
+			}
+			if flags&1 != 0 {
+				body = "0x" + body
+			}
+			if _, err := c28CheckString(body); err != nil {
+				t.Fatalf("C28 violated: %v", err)
+			}
+		}
 	})
 }
 
 func TestC28Regression(t *testing.T) {
-	st := vstat.New(t, "C28", "regression: wrong-length payloads (0, 3, 32, 34, 40 bytes) with a valid checksum, each with/without 0x and in either case (fix F6)")
+	st := vstat.New(t, "C28", "regression: wrong-length payloads (0, 3, 32, 34, 40 bytes) with a valid checksum, each with/without 0x and in either case (fix F6); valid encodings of 5 addresses (type id 0x00, 0x05, 0x0f, 0x10, 0xf3) with one hex digit deleted / inserted / duplicated at 5 position classes, with/without 0x")
 	for _, n := range []int{0, 3, 32, 34, 40} {
 		p := make([]byte, n)
 		for i := range p {
@@ -336,6 +437,23 @@ func TestC28Regression(t *testing.T) {
 			for _, upper := range []bool{false, true} {
 				c := c28Case{Mode: "payload", Payload: p, Prefix: prefix, Upper: upper}
 				vstat.Run(t, st, c, func() error { return c28Run(c, st) })
+			}
+		}
+	}
+	// one hex digit deleted / inserted / duplicated in a valid encoding (a parser that pads odd-length input
+	// with a leading 0 accepts the deletion of a leading zero nibble)
+	for _, typeID := range []byte{0x00, 0x05, 0x0f, 0x10, 0xf3} {
+		a := make([]byte, c28AddrLen)
+		a[0] = typeID
+		for i := 1; i < c28AddrLen; i++ {
+			a[i] = byte(7 * i)
+		}
+		for _, edit := range []string{"delete", "insert", "duplicate"} {
+			for _, class := range []string{"first", "typeid", "middle", "checksum", "last"} {
+				for _, prefix := range []bool{true, false} {
+					c := c28Case{Mode: "edit", Payload: a, Prefix: prefix, Edit: edit, Class: class, Pos: 11}
+					vstat.Run(t, st, c, func() error { return c28Run(c, st) })
+				}
 			}
 		}
 	}
